@@ -67,7 +67,25 @@ def expand_choices(G, nt):
     return res
 
 
-REG_NTS = ("base_reg_addr", "base_reg_val", "base_index_reg_addr", "base_index_reg_val", "index_reg_val")
+def reg_nonterminals(G):
+    """nonterminals that only choose among the address registers (directly or through another such nonterminal):
+    derived from the grammar, so that a refactored or added register nonterminal is enumerated like the others"""
+    regs = {'"bx"', '"bp"', '"si"', '"di"'}
+    S = set()
+    changed = True
+    while changed:
+        changed = False
+        for nt in G.g["nonterminals"]:
+            n = nt["name"]
+            if n in S or n.startswith("__") or not nt["productions"]:
+                continue
+            if all(len(p["symbols"]) == 1 and ((p["symbols"][0]["t"] == "term" and p["symbols"][0]["name"] in regs)
+                                              or (p["symbols"][0]["t"] == "nt" and p["symbols"][0]["name"] in S)) for p in nt["productions"]):
+                S.add(n)
+                changed = True
+    return S
+
+
 NUM_NTS = ("u_word_num", "s_word_num", "u_byte_num", "s_byte_num")
 
 
@@ -89,6 +107,8 @@ def run(ctx, chk):
     chk.rule("C04.R8", "no abort site in the addressing actions", floor=10)
 
     segs = seg_choice(G)
+    REG_NTS = reg_nonterminals(G)
+    chk.extra["register_nonterminals"] = sorted(REG_NTS)
     variants = 0
     for k, p in enumerate(G.productions("memory_addr")):
         label = G.prod_label("memory_addr", k)
